@@ -210,7 +210,9 @@ def judge(verdict, cases, summary, label):
         path = L.save_replay(PID, f"{label}.json", content)
         first = next((m for m in summary["mismatches"] if m["id"] == ids[0]), None)
         pan = next((p for p in summary["panics"] if p["id"] == ids[0]), None)
-        if first:
+        if first and first.get("kind") == "stall":
+            what = f"case {first['id']} {first['dir']}: {first['detail']}"
+        elif first:
             what = (f"case {first['id']} {first['dir']} channel {first['ch']}: expected {first['expected']} got {first['got']} "
                     f"({first['kind']}; the as-found heap model predicts exactly this: {first.get('matches_as_found_model')})")
         elif pan:
@@ -333,7 +335,7 @@ def main(tier, seed, replay):
     cases += direct_cases(seed, 48 if thorough else 12, perms, n_tlc)
 
     # ---- 3./4. replay on the real backend over loopback sockets --------------------------------
-    rt = 1000 if thorough else 70
+    rt = 1000 if thorough else 120
     summary = run_replayer(wd, "cases.ndjson", cases, rt)
     aborted = summary.get("aborted_after_panics")
     if summary["runs"] != 2 * len(cases) and not aborted:
@@ -342,6 +344,15 @@ def main(tier, seed, replay):
         L.log(f"  panic: {p}")
     violations = judge(verdict, cases, summary, "replay")
     st = self_test(wd, cases, summary, 120) if not aborted else {"skipped": "replay aborted after 40 panics"}
+    # bursts to several clients at once (the send path serves all clients in one frame)
+    rb = L.run([L.harness_bin("c17_replay"), "--burst"], timeout=600)
+    burst = json.loads(rb.stdout.strip().splitlines()[-1])
+    if burst["burst_mismatches"]:
+        path = L.save_replay(PID, "burst.json", burst["burst_mismatches"])
+        verdict.violation(path, f"burst of broadcast messages to several clients: {json.dumps(burst['burst_mismatches'][0])[:300]}")
+        violations += len(burst["burst_mismatches"])
+    if aborted and not summary["mismatch_ids"]:
+        raise L.ToolError("replay aborted without a mismatch")
 
     # ---- evidence -------------------------------------------------------------------------------
     ops = {"send": 0, "sframe": 0, "rframe": 0}
